@@ -150,7 +150,9 @@ func (x *Exec) enterLoopHeader(cfg *Config, f *Frame, from, to *ssa.BasicBlock, 
 	} else {
 		for _, name := range sortedKeys(st.heap) {
 			if mods[name] || mods[strings.SplitN(name, "!len", 2)[0]] || mods[strings.SplitN(name, "!at", 2)[0]] {
+				prev := st.heap[name]
 				st.heap[name] = x.d.Fresh(fmt.Sprintf("L%d!%s", ord, name), st.heap[name].Sort)
+				x.loopFrame(st, name, prev)
 			}
 		}
 		// arrays not yet materialised but modified in the loop must not
@@ -212,6 +214,25 @@ func (x *Exec) enterLoopHeader(cfg *Config, f *Frame, from, to *ssa.BasicBlock, 
 		x.canary(cfg, fmt.Sprintf("loop%d-invariant-satisfiable", ord), to.Instrs[0].Pos())
 	}
 	return true
+}
+
+// loopFrame: every write in a loop body is checked against the modifies
+// clause (store-in-frame / call-in-frame), so after the havoc the array still
+// agrees with its pre-loop value on pre-existing objects outside that clause.
+func (x *Exec) loopFrame(st *State, name string, prev Term) {
+	if !x.frameReady || x.frameWhole[name] || strings.HasPrefix(name, "$") || !prev.Sort.IsArr() || prev.Sort.IndexSort() != SInt {
+		return
+	}
+	if x.c != nil && x.c.Options["noframe"] == "true" {
+		return
+	}
+	o := Term{"o!lf", SInt}
+	conds := []Term{x.preexisting(o)}
+	for _, l := range x.frameLocs[name] {
+		conds = append(conds, Neq(o, l))
+	}
+	cur := st.heap[name]
+	st.assume(Forall([]Term{o}, Implies(And(conds...), Eq(Select(cur, o), Select(prev, o))), []Term{Select(cur, o)}))
 }
 
 // pendingHavoc records arrays that the loop modifies but that have not been
